@@ -8,17 +8,17 @@ REPO_HOOK_COMMITS = subprocess.run(["git", "-C", "/repo", "log", "--format=%h %s
 # id: (category, technique, text, note, design_ref)
 CHECKS = {
  "C01": ("exploration",
-         "TLA+ reference semantics of STB 34.101.31 (spec/ref/BeltBlock, BeltModes, BeltFmt) anchored by 50 appendix vectors evaluated by TLC; TLC recomputes every recorded call of the real library (Trace_Belt) and generates cases with predicted outputs that the harness replays (Gen_Belt)",
+         "TLA+ reference semantics of STB 34.101.31 (spec/ref/BeltBlock, BeltModes, BeltFmt) anchored by 50 appendix vectors evaluated by TLC; TLC recomputes every recorded call of the real library (Trace_Belt) and generates cases with predicted outputs that the harness replays (Gen_Belt); message-level reuse of WBL / SDE / FMT states as a state machine (spec/sm/MsgApi.tla), every history of <= 2 whole-message calls replayed on one real state",
          "Every belt mechanism is called on enumerated boundary structure (all CTS lengths, wide-block lengths 32..208, header lengths straddling 16, counters wrapping 32/64/128 bits, alteration classes of authenticated unwrapping, FMT alphabets x word lengths, the FMT block-count table by breakpoints) and each result is recomputed by TLC from the standard's definition; not a proof over all keys/data: data octets are seeded samples.",
          "Trusted: TLC, the transcription of the standard in spec/ref (anchored by the appendix vectors in the same run), the C driver. ASan/UBSan build with exact-size buffers.",
          "DESIGN.md section 4, C01"),
  "C02": ("exploration",
          "TLA+ reference semantics of STB 34.101.45 (spec/ref/Bign.tla over ECp/BigNat and BeltModes) anchored by the appendix tables G.1-G.7 evaluated by TLC; tape-driven recorded calls of the real bign functions in the release AND assert-enabled builds judged by Trace_Bign (error classes, ranges, the signing equation for the tape's nonce, sign->verify, gen->val, wrap->unwrap, DH symmetry; a subset recomputed in full); TLC-generated replay cases (Gen_Bign)",
          "Enumerated classes: generator tapes (valid / zero / in [q,2^2l) / in [q,p) / k rejected then valid / all rejected), d x H x nonce grid incl. H >= q and nonces around 2^l, 20 verifier alterations and 15 token alterations classified by the spec (alterations that leave the reduced hash unchanged are ACCEPT), key transport and DH; curves l = 128 (192, 256 in thorough). Data seeded.",
-         "Trusted: TLC, the transcription of the standard (anchored by the appendix vectors), the C driver. IBS functions are not specified; an in-field off-curve public key is an observation only (see DESIGN section 0).",
+         "Trusted: TLC, the transcription of the standard (anchored by the appendix vectors), the C driver. The identity-based signatures (appendix B: IdExtract / IdSign / IdSign2 / IdVerify incl. boundary identity keys 0, 1, q-1) are specified and driven; an in-field off-curve public key is an observation only (see DESIGN section 0).",
          "DESIGN.md section 4, C02"),
  "C03": ("model_checking",
-         "TLA+ reference semantics of STB 34.101.77 / 34.101.47 (spec/ref/BashF, Brng, Botp) anchored by appendix vectors evaluated by TLC; the bash programmable automaton as a state machine (spec/sm/BashPrg.tla) model-checked over command histories, every explored behaviour replayed on the real bashPrg* functions; recorded one-shot calls and random automaton scripts validated by TLC (Trace_Bash)",
+         "TLA+ reference semantics of STB 34.101.77 / 34.101.47 (spec/ref/BashF, Brng, Botp) anchored by appendix vectors evaluated by TLC; the bash programmable automaton as a state machine (spec/sm/BashPrg.tla) model-checked over command histories, every explored behaviour replayed on the real bashPrg* functions; recorded one-shot calls and random automaton scripts validated by TLC (Trace_Bash); the one-time-password state objects as a state machine (spec/sm/BotpSM.tla): all bounded histories of Start / StepS / StepR / StepV / StepG with predicted outputs replayed on one real object, recorded random histories stepped through the spec (Trace_Botp)",
          "bash-f in every platform variant the CPU supports, hash levels x length classes around the rate, all automaton command histories to depth 2-3 on the 12 configurations (deeper by simulation), brng CTR counters wrapping one word / two words / all 256 bits, HMAC key/IV length classes, OTP digit counts and counter wrap-around: each result recomputed by TLC from the standards' text.",
          "Trusted: TLC, the transcription of the standards (anchored by the appendix vectors), the C driver.",
          "DESIGN.md section 4, C03"),
@@ -34,7 +34,7 @@ CHECKS = {
          "DESIGN.md section 4, C08"),
  "C16": ("exploration",
          "TLA+ reference semantics of bign96, GOST R 34.10-2012, DSTU 4145 and the pfok DH/MTI protocols (spec/ref/Schemes.tla over ECp / BigNat / GF2Poly), anchored by the standards' reference vectors evaluated by TLC; TLC judges recorded scenarios of the real functions (Trace_Schemes): first admissible draw, component ranges, the s-equation given r, Sign->Verify, Gen->Val, compression round trips, agreement of both pfok parties, alteration classes classified by the reduced hash; expensive values (scalar multiplications, exponentiations) recomputed on a subset",
-         "Every standard parameter set x private-key class {1, order-1, seeded} x hash class {0, all-ones, >= order, seeded} x tape class x signature length x 15-25 single-bit / boundary alterations of r, s, Q; constructed intermediate values (GOST s = 0 redraw); gf2 trace / quadratic solver on 14 fields with exact-size stacks.",
+         "Every standard parameter set x private-key class {1, order-1, seeded} x hash class {0, all-ones, >= order, seeded} x tape class x signature length x 15-25 single-bit / boundary alterations of r, s, Q; the repeat loops of every signing algorithm over the generator tape (SignLoop) with histories that force each retry branch (draw out of range, r = 0, s = 0 by a key tied to the tape); bign96Sign2 with optional data; dstuPointCompress / Recover with overlapping point and xpoint; gf2 trace / quadratic solver on 14 fields with exact-size stacks.",
          "Trusted: TLC, the transcription of the standards (anchored), the C driver; full-value oracle only on the recomputed subset, relational + range oracle elsewhere. An alteration that leaves the reduced hash unchanged is ACCEPT by the specification.",
          "DESIGN.md section 4, C16"),
  "C17": ("model_checking",
@@ -45,32 +45,32 @@ CHECKS = {
  "C05": ("exploration",
          "TLA+ big-natural and GF(2)[x] libraries (spec/lib/BigNat.tla, GF2Poly.tla) and one line of mathematics per public function of word / ww / zz / zm-qr / pp / gf2 (spec/ref/ZZ.tla, WW.tla, PP.tla, WordOps.tla), anchored by 138 TLC-evaluated identities; TLC recomputes every recorded call of the real functions (Trace_Arith), both editions of every SAFE/FAST pair called by name, in the 64- and 32-bit word builds",
          "157 functions on enumerated structure: operand lengths 0..21 words crossing every algorithm switch, boundary-alphabet words, multiples of the modulus with quotients drawn from the boundary alphabet, Knuth-D over-estimate cases, 17 modulus classes reaching every reduction strategy of zmCreate, documented aliasing patterns; all 16-bit helpers exhaustively. Values AND carries/borrows/flags are compared; modular results must be fully reduced.",
-         "Trusted: TLC, the header formulas as transcribed (anchored), the C driver. Longer operands are a seeded subset of the enumerated classes; wwNAF / ppMinPolyMod / random sampling functions have no specification.",
+         "Trusted: TLC, the header formulas as transcribed (anchored), the C driver. Longer operands are a seeded subset of the enumerated classes; The result arrays carry canaries beyond the documented output length (an overrun is a rejected line). ppMinPolyMod has no specification; zzRandMod is judged for its range only.",
          "DESIGN.md section 4, C05"),
  "C06": ("model_checking",
          "the affine chord-and-tangent group law as TLA+ definition (spec/ref/ECp.tla, instantiated over TLC integers and over BigNat), validated by TLC as a group on complete small curves; TLC emits COMPLETE tables (points, addition, negation, doubling, tripling, all multiples up to 2*order+2, on-curve decisions for all coordinate pairs, SWU) per curve (Gen_ECSmall) and the same generic C functions are run over all of them in the assert-enabled ASan builds for 64- and 32-bit words; sampled calls on multi-word and standard curves recomputed by TLC (Trace_EC)",
          "Exhaustive on complete curves of 9-120 points (quick; ~1000 points thorough) and on cyclic subgroups of order 5/7 over 64..192-bit primes (plain, Crandall, Montgomery rings): every ordered pair incl. O, P = Q, P = -Q, order-2 points, in J / AJ / AA forms under aliasing c=a, c=b, a=b (never a=b=c), all scalars 0..2*order+2 and multi-word scalars at every NAF width, ecpIsOnA on all pairs incl. coordinates >= p, SWU on all inputs. Standard curves: boundary scalars and TLC-checked laws on recorded results.",
-         "Trusted: TLC, the group-law definition (validated as a group by TLC), the C driver with exact ec->deep stacks. EC2 (binary curves) is not covered.",
+         "Trusted: TLC, the group-law definition (validated as a group by TLC), the C driver with exact ec->deep stacks. Binary curves (ec2.c): the same design over GF(2^m) (spec/ref/EC2*.tla): complete curves over a subfield carried into GF(2^m) by an explicit, TLC-checked field embedding, all pairs x aliasing x Z classes, scalars, the Hasse test of ec2SeemsValidGroup.",
          "DESIGN.md section 4, C06"),
  "C07": ("exploration",
-         "resource monitor spec/mon/Regions.tla (TLC trace validation of region / abort events) over the enumerated replay suites executed in exact-size ASan+UBSan+assert builds for 64- and 32-bit words; sensor = AddressSanitizer/UBSan/utilAssert (thorough: + valgrind memcheck)",
+         "resource monitor spec/mon/Regions.tla (TLC trace validation of region / abort events) over the enumerated replay suites executed in exact-size ASan+UBSan+assert builds for 64- and 32-bit words; sensor = AddressSanitizer/UBSan/utilAssert (thorough: + valgrind memcheck); the blob object as a state machine (spec/sm/Blob.tla) whose create / resize / fill / wipe / copy / close histories are replayed with predicted observations in the page-rounded and the exact-size builds; output canaries of the arithmetic driver",
          "Memory safety is not decided by a TLA+ model: the specification family contributes the systematic behaviour space (all lengths / levels / alphabets / fragmentings / overlaps that the functional specs enumerate) and the region monitor; the verdict comes from the sanitizers on executions where every state, stack, blob and caller buffer has exactly the documented size.",
          "Trusted: clang ASan/UBSan (alignment check off by design of the library), the guarded exact-blob hook, the drivers allocating exact sizes. Only behaviours in checks/suites.py are exercised.",
          "DESIGN.md section 4, C07 and section 7"),
  "C09": ("fault_enumeration",
          "error-contract table transcribed from the headers' \\expect clauses (spec/sm/ErrContract.tla, generated + checked by TLC) and heap state machine spec/sm/Heap.tla; TLC generates the argument sweeps (Gen_Err), the harness runs every case with link-time allocator interposition (k-th allocation failure for k = 1..n+1), TLC judges result lines (Trace_Err: E1 error class, E2 no release on failed authentication) and allocator traces (Trace_Heap: E3 failure => error, E4 no leak)",
-         "105 err_t functions (192 header clauses) are driven: each scalar argument across and beyond its documented domain, every allocation position of every valid call failed once, tampered tokens with pre/post images of the outputs. Quick runs a seeded third of the functions, thorough all.",
+         "105 err_t functions (192 header clauses) are driven: each scalar argument across and beyond its documented domain, every allocation position of every valid call failed once, tampered tokens with pre/post images of the outputs. Quick runs a seeded third of the functions (plus the persistent-object and blob-growing drivers), thorough all. The shared generator is driven as a persistent object with a follow-up probe after every (failed) creation.",
          "Trusted: TLC, the header transcription (every clause carries its source line), --wrap allocator interposition, ASan build with exact-size blobs. Pointer-validity / overlap clauses and on-curve / primality-type \\expect conditions (only partially checked by design, util.h) are not demanded.",
          "DESIGN.md section 4, C09"),
  "C10": ("model_checking",
-         "TLC exhaustive model checking of the buffering state machine spec/sm/StepApi.tla per discipline; every explored fragment script replayed on the real Start/Step/Get bundles (Get/Verify and state relocation at scripted positions); TLC judges each executed script against the one-shot reference semantics (Trace_Belt!StepsOk)",
+         "TLC exhaustive model checking of the buffering state machine spec/sm/StepApi.tla per discipline; every explored fragment script replayed on the real Start/Step/Get bundles (Get/Verify and state relocation at scripted positions); TLC judges each executed script against the one-shot reference semantics (Trace_Belt!StepsOk); two further state machines: spec/sm/MsgApi.tla (one Start, many whole-message StepE/StepD/StepD2/StepR calls on WBL / SDE / FMT) and spec/sm/StepAead.tla (DWP / CHE with the cipher and the authentication half decoupled), their behaviours replayed the same way",
          "Within the bounds (fragments, total length, marks) over the boundary alphabet {0,1,blk-1,blk,blk+1,2blk-1,2blk,2blk+1} every fragment script is enumerated by TLC and executed on the real code (quick: a seeded subset of the larger families); the value oracle is the one-shot specification.",
-         "Trusted: TLC, spec/ref belt semantics (anchored in C01), the C driver; data octets are seeded. Bundles of bash/brng/botp are covered once their reference semantics is wired (see evidence key non_belt_bundles).",
+         "Trusted: TLC, spec/ref belt semantics (anchored in C01), the C driver; data octets are seeded. The bash / brng / botp bundles run through the same scripts (checks/C10_other.py).",
          "DESIGN.md section 4, C10"),
  "C11": ("exploration",
          "TLC enumerates buffer placements from the headers' rule set (spec/sm/Overlap.tla, forbidden pairs excluded, table closure checked); harness lays each placement out in one arena and calls the real function; TLC judges each recorded call against the reference semantics applied to the pre-call inputs (Trace_Belt)",
-         "All relative offsets of dest against src in [-(len+16), len+16] for the listed lengths and 11 positions of each auxiliary buffer inside/straddling the output and input regions are executed for 21 overlap-tolerant functions; result must equal F(inputs before the call).",
-         "Trusted: TLC, spec/ref belt semantics, the arena harness. ECB (no overlap statement in its header), bash/brng/DER helpers not yet driven.",
+         "All relative offsets of dest against src in [-(len+16), len+16] for the listed lengths and 11 positions of each auxiliary buffer inside/straddling the output and input regions are executed for the overlap-tolerant one-shot functions (belt, bash, memMove / memJoin, beltKRP, beltFMT); second rule group: the key of every *Start and the tag of StepG / StepG2 swept over EVERY offset sharing an octet with the state; third: DER encoders / decoders with val / len swept against der; result must equal F(inputs before the call).",
+         "Trusted: TLC, spec/ref belt semantics, the arena harness. ECB and brng make no overlap statement in their headers (not driven); dstuPointCompress / Recover are swept in C16's driver.",
          "DESIGN.md section 4, C11"),
  "C12": ("exploration",
          "condition lists of the standards as TLA+ predicates (spec/ref/Validators.tla) over BigNat / GF2Poly / ECp, primality by deterministic Miller-Rabin base sets and TLC-checked n-1 certificates (spec/ref/Pri.tla), anchored by 107 TLC-evaluated vectors; TLC judges every recorded decision of the real validators (Trace_Valid): accept iff every condition holds, each rejection justified by a certificate TLC verifies (factor, remainder, recomputed belt-hash, curve equation)",
@@ -89,7 +89,7 @@ CHECKS = {
          "DESIGN.md section 4, C14"),
  "C15": ("model_checking",
          "heap-block lifecycle state machine spec/sm/Heap.tla model-checked exhaustively (MC_Heap) and used as the trace specification (Trace_Heap) for allocator events recorded by link-time interposition; the wiped attribute of a block is computed at free time from memWipe's deterministic pattern over the whole exact-size block",
-         "For 75 secret-processing functions, on success and on every driven error exit and fault position, every block handed back to the allocator must carry the wipe pattern over its whole size (exact-size blobs); realloc is interposed as allocate-copy-snapshot-free so released old blocks are judged too; a content search for the call's secrets in freed blocks is a second signal.",
+         "For every secret-processing function of the contract table (all of them in the quick tier too), on success and on every driven error exit and fault position, every block handed back to the allocator must carry the wipe pattern over its whole size (exact-size blobs); realloc is interposed as allocate-copy-snapshot-free so released old blocks are judged too; a content search for the call's secrets in freed blocks is a second signal.",
          "Trusted: TLC, the interposed allocator and its pattern test (src/core/mem.c memWipe), the driven function table of harness/drv_err.c.",
          "DESIGN.md section 4, C15"),
  "C18": ("model_checking",
